@@ -132,13 +132,15 @@ def sample_idxs(rnd, n=400):
 def whole_carts(ctx, rnd):
     from pico8.game.formatter import p8png
     traces, meta = [], []
-    n_sparse, n_dense = (6, 2) if ctx.quick else (60, 12)
+    n_sparse, n_dense = (14, 2) if ctx.quick else (80, 12)
     for k in range(n_sparse + n_dense):
         pat = (rnd.randrange(256), rnd.randrange(256)) if k else (0, 0)
         if k < n_sparse:
             ov = cartio.sparse_overrides(rnd, 40)
             if k % 2:
                 ov.update(cartio.repeated_row_overrides(rnd, pat))
+            else:
+                ov.update(cartio.default_row_overrides(rnd))
         else:
             ov = {a: rnd.randrange(256) for a in range(0x4300)}
         lpat = (rnd.randrange(256), rnd.randrange(256)) if k % 2 else None
